@@ -17,21 +17,29 @@ class RecordingFile(io.BytesIO):
         self.ops.append((self.tell(), b))
         return super().write(b)
 
+    def truncate(self, size=None):
+        size = self.tell() if size is None else size
+        self.ops.append((size, None))            # (offset, None): the file is cut at offset
+        return super().truncate(size)
+
 
 def images(initial: bytes, ops, step=1):
     """yield (label, image) for every crash point.  label = (k, j): k complete operations, j bytes of operation k+1"""
     img = bytearray(initial)
 
     def apply(buf, off, data):
+        if data is None:                         # truncate
+            del buf[off:]
+            return
         if off > len(buf):
             buf.extend(bytes(off - len(buf)))
         buf[off:off + len(data)] = data
 
     for k, (off, data) in enumerate(ops):
         # torn inside operation k (prefix of j bytes), j = 0 is the clean state before it
-        for j in range(0, len(data), step):
+        for j in range(0, len(data) if data is not None else 1, step):
             cur = bytearray(img)
-            apply(cur, off, data[:j])
+            apply(cur, off, data[:j] if data is not None else b"")
             yield ("torn", k, j), bytes(cur)
         if k >= 1:
             # the previous operation never reached the disk but this one did (reordered), complete
@@ -40,7 +48,7 @@ def images(initial: bytes, ops, step=1):
             for (o2, d2) in ops[:k - 1]:
                 apply(base, o2, d2)
             apply(base, off, data)
-            yield ("reordered", k, len(data)), bytes(base)
+            yield ("reordered", k, len(data) if data is not None else 0), bytes(base)
         apply(img, off, data)
     yield ("complete", len(ops), 0), bytes(img)
 
